@@ -24,7 +24,7 @@ OPS = ["construct", "construct-empty", "construct-union", "copy-holder", "bind-o
        "write-through-ref", "write-through-original", "grow"]
 FLOORS = {"histories": 1500, "steps": 20000, "slot_resolutions": 100000, "growths": 1000, "alias_checks": 20000,
           "null_checks": 20000, "raw_null_union_checks": 3000, "live_extent_checks": 30000,
-          "empty_nd_reference_arrays": 300, "copy_same_buffer": 300, "copy_other_buffer": 300, "toplevel_union_get": 3000, "second_handle_resolutions": 50000}
+          "empty_nd_reference_arrays": 300, "copy_same_buffer": 300, "copy_other_buffer": 300, "toplevel_union_get": 3000, "second_handle_resolutions": 50000, "copies_of_holders_with_default_targets": 200}
 FLOORS.update({"op:" + o: 800 for o in OPS})
 FLOORS["op:bind-other-type"] = 150
 RULE = ("generated reference-bearing types (Ref and UnionRef as struct fields and as array items, referents that hold "
@@ -81,7 +81,18 @@ def gen_types(rng, tg):
             fs = rng.sample(pool, rng.randint(1, 5))
             if not any(f[1]["k"] in ("ref", "ur", "ar") and f[0] not in ("k", "name") for f in fs):
                 fs.append(pool[0])
-            holders.append({"k": "st", "n": tg.name("H"), "f": [[a, b] for a, b in fs]})
+            hd = {"k": "st", "n": tg.name("H"), "f": [[a, b] for a, b in fs]}
+            # reference fields may declare a default target; a reference given as None is null all the same
+            dflt = {}
+            for a, b in fs:
+                if b["k"] == "ref" and b["to"] is Q and rng.random() < 0.5:
+                    dflt[a] = [1, 2, 3] if Q["dims"][0] in (None, 3) else None
+                elif b["k"] == "ref" and b["to"] is P and rng.random() < 0.3 and len(P["f"]) == 2:
+                    dflt[a] = {"x": 5, "y": 1}
+            dflt = {k_: v_ for k_, v_ in dflt.items() if v_ is not None}
+            if dflt:
+                hd["dflt"] = dflt
+            holders.append(hd)
         elif r < 0.85:
             holders.append(pool[4][1])
         else:
@@ -431,6 +442,8 @@ def _step(G, op, rng, vg, tt, holders, holders_live, fresh):
             o.h = cls(src.h, _buffer=env.buf)
             G.attach(o)
             fresh.extend(range(n0 + 1, G.n + 1))
+        if src.t.get("dflt"):
+            G.w.count("copies_of_holders_with_default_targets")
         G.w.count("copy_same_buffer" if same else "copy_other_buffer")
         G.hist.append([op, f"#{src.i} -> #{o.i}", "same buffer" if same else "other buffer"])
         return True
